@@ -329,6 +329,18 @@ def falsify_scaling(rnd, gen, budget):
                 return f"{c} * psi: norm() = {nd:.12g} but sqrt(<psi|psi>) = {nt:.12g} [{label}]"
         if torch.linalg.norm(dense(big.factors) - c * ref).item() > 1e-9 * max(1.0, abs(c) * torch.linalg.norm(ref).item()):
             return f"{c} * psi: state is not the scaled state [{label}]"
+        # the in-place form  psi *= c  with the centre wherever it is
+        inp = make_mps(MPS, [f.clone() for f in st.factors], dim, precision, 64, st.orthogonality_center)
+        inp *= c
+        if inp.orthogonality_center is not None:
+            pr = canonical_problems(inp.factors, inp.orthogonality_center)
+            if pr:
+                return f"psi *= {c} (centre {st.orthogonality_center}): {pr[0]} [{label}]"
+            nd, nt = float(inp.norm()), torch.linalg.norm(c * ref).item()
+            if abs(nd - nt) > 1e-9 * max(1.0, nt):
+                return f"psi *= {c} (centre {st.orthogonality_center}): norm() = {nd:.12g} but sqrt(<psi|psi>) = {nt:.12g} [{label}]"
+        if torch.linalg.norm(dense(inp.factors) - c * ref).item() > 1e-9 * max(1.0, abs(c) * torch.linalg.norm(ref).item()):
+            return f"psi *= {c}: state is not the scaled state [{label}]"
         tot = big + big
         bad = check_truncated(f"({c}*psi) + ({c}*psi) " + label, 2 * c * ref, tot.factors, tot.orthogonality_center,
                               precision, 64, tot.norm)
